@@ -496,7 +496,7 @@ class NonlinearConstraints:
             eq_val = val[eq_idx]
             if len(eq_idx):
                 midpoint = 0.5 * (pc.bounds[1][eq_idx] + pc.bounds[0][eq_idx])
-                eq_val -= midpoint
+                eq_val = eq_val - midpoint
             c_eq.append(eq_val)
 
         if self._m_eq:
